@@ -75,7 +75,7 @@ def main():
             for p in props:
                 rcp, outp = sh(f"/venv/bin/python harness/check.py {p} --tier quick", cwd=VERIF,
                                env=dict(os.environ, VERIF_EVIDENCE_DIR=os.path.join(VERIF, ".work", "evidence-seed-" + name),
-                                        **({"REPO": wt} if scratch else {})))
+                                        **({"VERIF_REPO": wt} if scratch else {})))
                 m = re.search(r"VIOLATION property=(\S+) replay=(\S+)(.*)", outp)
                 fired[p] = {"rc": rcp, "violation": bool(m), "no_failing_input": bool(m and "no-failing-input-found" in m.group(3)),
                             "summary": outp.strip().split("\n")[-1][-200:]}
